@@ -2,10 +2,14 @@ import LitexModel.Stream.Open
 import LitexModel.Stream.Status
 open Litex Litex.Driver Litex.Stream
 
-/-- `status` = packet.Status; everything else is the shared stream-element dispatcher (`Stream/Open.lean`). -/
+/-- `status` = packet.Status; `chain3 d` = PipeValid ⟫ SyncFIFO(d) ⟫ PipeReady (the mixed 3-element Pipeline of
+    `chain3_*` in LitexProps/C04.lean); everything else is the shared stream-element dispatcher
+    (`Stream/Open.lean`). -/
 def openC04 (args : List String) (hin hout : IO.FS.Stream) : Option (IO Bool) :=
   match args with
   | ["status"] => some (serve numStatus hin hout)
+  | ["chain3", d] => d.toNat?.map fun d =>
+      serve (numElem ((pipeValid zTok).comp ((syncFifo d zTok).comp (pipeReady zTok)))) hin hout
   | _ => Litex.Stream.openMachine args hin hout
 
 def main : IO Unit := mainLoop openC04 (fun _ => none)
